@@ -994,6 +994,19 @@ pub fn check_c06(ix: &Ix<'_>, v: &mut Vec<Violation>) {
                 }
                 _ => {}
             }
+            // user properties and reason string are part of the acknowledgement's contents
+            let sent_props = match &ack.pkt {
+                Some(Pkt::PubAck(a) | Pkt::PubRec(a)) => Some(&a.props),
+                Some(Pkt::SubAck(x) | Pkt::UnsubAck(x)) => Some(&x.props),
+                _ => None,
+            };
+            if let Some(pr) = sent_props
+                && info.what != "pubcomp"
+                && !(deviated && dev_before)
+                && crate::common::rc_props_sig(pr) != info.sig
+            {
+                viol(v, "C06", format!("C06/wrong-ack-returned/{role}/{want}/properties"), format!("{want} #{pid}: the user properties / reason string the application got differ from what the peer sent ({pr:?})"), *done_seq);
+            }
         } else if let Some(Pkt::SubAck(x)) = &ack.pkt
             && want == "SUBACK"
             && x.codes != info.codes
